@@ -16,6 +16,7 @@ from exabgp.protocol.family import FamilyTuple
 
 if TYPE_CHECKING:
     from exabgp.bgp.message.operational import OperationalFamily
+    from exabgp.bgp.neighbor import Neighbor
     from exabgp.configuration.settings import ConfigurationSettings
     from exabgp.rib.route import Route
 
@@ -129,14 +130,16 @@ class _Configuration:
         Returns:
             True if route was announced to at least one peer
         """
-        result = False
+        # resolve for every selected neighbor BEFORE any RIB is touched: resolve_self raises for a neighbor whose session
+        # has no address of the route's family ("next-hop self"), and the neighbors before it in the configuration had
+        # got the route although the command is answered with an error -- the outcome depended on their order
+        resolved: list[tuple['Neighbor', 'Route']] = []
         for neighbor_name in self.neighbors:
             if neighbor_name in peers:
                 neighbor = self.neighbors[neighbor_name]
                 if route.nlri.family().afi_safi() in neighbor.families():
                     # resolve_self creates a copy with resolved nexthop
-                    neighbor.rib.outgoing.add_to_rib(neighbor.resolve_self(route))
-                    result = True
+                    resolved.append((neighbor, neighbor.resolve_self(route)))
                 else:
                     log.error(
                         lazymsg(
@@ -146,7 +149,9 @@ class _Configuration:
                         ),
                         'configuration',
                     )
-        return result
+        for neighbor, resolved_route in resolved:
+            neighbor.rib.outgoing.add_to_rib(resolved_route)
+        return bool(resolved)
 
     def withdraw_route(self, peers: list[str], route: 'Route') -> bool:
         """Withdraw route from matching peers.
@@ -158,14 +163,14 @@ class _Configuration:
         Returns:
             True if route was withdrawn from at least one peer
         """
-        result = False
+        # resolved for every selected neighbor before any RIB is touched, as in announce_route
+        resolved: list[tuple['Neighbor', 'Route']] = []
         for neighbor_name in self.neighbors:
             if neighbor_name in peers:
                 neighbor = self.neighbors[neighbor_name]
                 if route.nlri.family().afi_safi() in neighbor.families():
                     # resolve_self creates a copy with resolved nexthop
-                    neighbor.rib.outgoing.del_from_rib(neighbor.resolve_self(route))
-                    result = True
+                    resolved.append((neighbor, neighbor.resolve_self(route)))
                 else:
                     log.error(
                         lazymsg(
@@ -175,7 +180,9 @@ class _Configuration:
                         ),
                         'configuration',
                     )
-        return result
+        for neighbor, resolved_route in resolved:
+            neighbor.rib.outgoing.del_from_rib(resolved_route)
+        return bool(resolved)
 
     def announce_route_indexed(self, peers: list[str], route: 'Route') -> tuple[bytes, bool]:
         """Announce route and store in global index for API access.
